@@ -8,7 +8,7 @@ import timeouts as T
 PROP = 'C08'
 VARIANTS = ['main', 'reap', 'fork']
 REPLAYERS = {'pool.Worker.workloop': 'replayers/workloop.py', 'pool.Pool._terminate_pool': 'replayers/terminate_pool.py',
-             'pool.Pool._join_exited_workers': 'replayers/join_exited.py', 'pool.Worker._do_exit': 'replayers/worker_exit.py',
+             'pool.Pool._join_exited_workers': 'replayers/join_exited.py', 'pool.Worker._do_exit': 'replayers/worker_exit.py', 'pool.Worker.__call__': 'replayers/worker_exit.py',
              'pool.Worker.after_fork': 'replayers/after_fork.py', 'pool.soft_timeout_sighandler': 'replayers/after_fork.py'}
 
 ASSUMPTIONS = [
@@ -21,8 +21,7 @@ OUT_OF_REACH = [
     'that terminate() returns within a bounded time and that no pool thread is running afterwards (liveness; needs thread progress)',
     'signals arriving between two arbitrary statements of the worker loop other than at the modelled points '
     '(e.g. inside put while the result-queue write lock is held)',
-    'Worker.__call__ (replaces sys.exit, runs workloop and _do_exit): not under contract; of Pool._terminate_pool the order of '
-    'the calls is proved, not that each of them returns',
+    'of Pool._terminate_pool the order of the calls is proved, not that each of them returns',
 ]
 
 
@@ -162,6 +161,64 @@ def terminate_pool_contract(w):
             'queues_closed_at_the_end': 'g.closed_in == truthy(inqueue) and g.closed_out == truthy(outqueue)',
             'no_worker_is_touched_in_an_empty_pool': 'implies(len(pool) == 0, all(g.sig_at[k] == 0 and g.join_at[k] == 0 for k in ints()))',
         },
+    )
+
+
+def worker_call_contract(w):
+    """Worker.__call__: whatever happens in the loop, the child ends in _do_exit with the status the loop (or the signal
+    handler, through sys.exit) named"""
+    g = w.classes['g']
+    g.fields.update({'wc_outcome': IntS, 'wc_code': opt(IntS), 'wc_exits': IntS, 'wc_exit_code': opt(IntS), 'wc_exit_exc': BoolS,
+                     'wc_setup': IntS})
+    w.cls('WorkerCall', module='pool', pyname='Worker', fields={})
+
+    def ext_workloop(ex, args, kw):
+        k = ex.path.choose(4)
+        gset(ex, 'wc_outcome', mk_int(k))
+        if k == 0:                                   # the loop returns a status (EX_OK / EX_RECYCLE / EX_FAILURE)
+            c = IntS.fresh('loop_status')
+            gset(ex, 'wc_code', coerce(ex.path, c, opt(IntS)))
+            return c
+        if k == 1:                                   # the termination handler ran: sys.exit(status) inside the loop
+            c = IntS.fresh('signal_status')
+            gset(ex, 'wc_code', coerce(ex.path, c, opt(IntS)))
+            # (common._shutdown_cleanup calls sys.exit: by now that is the wrapper __call__ installed)
+            wrapper = ex.path.__dict__.get('module_overrides', {}).get('sys.exit')
+            prove(ex, 'exit.sys_exit_is_wrapped_before_the_loop_runs', z3.BoolVal(wrapper is not None))
+            if wrapper is None:
+                raise_exc(ex, 'SystemExit', c)
+            return ex.call_value(wrapper, [c], {})
+        if k == 2:
+            raise_exc(ex, 'AnyException')
+        raise_exc(ex, 'AnyBaseException')
+
+    def ext_do_exit(ex, args, kw):
+        if ex.path.decide(gget(ex, 'wc_exits').e >= 1):
+            # (the process ended in the first _do_exit: os._exit runs no finally block; the model's ProcessExit exception
+            # does, so what it reaches afterwards is not executed by anybody)
+            raise PyExc(VExc('ProcessExit', [args[2]]))
+        gset(ex, 'wc_exits', SV(IntS, gget(ex, 'wc_exits').e + 1))
+        gset(ex, 'wc_exit_code', coerce(ex.path, args[2], opt(IntS)))
+        gset(ex, 'wc_exit_exc', mk_bool(not isinstance(args[3] if len(args) > 3 else SNone(), SNone)))
+        raise PyExc(VExc('ProcessExit', [args[2]]))
+
+    def setup(ex, args, kw):
+        gset(ex, 'wc_setup', SV(IntS, gget(ex, 'wc_setup').e + 1))
+        return SNone()
+    return Contract(
+        'pool.Worker.__call__', prop=PROP, variants=['main'], params={'self': ref('WorkerCall')},
+        externals={'pool.Worker.workloop': ext_workloop, 'pool.Worker._do_exit': ext_do_exit, 'pool.Worker.after_fork': setup,
+                   'pool.Worker._make_child_methods': setup, 'pool.Worker.on_loop_start': setup,
+                   'os.getpid': lambda ex, a, k: IntS.fresh('pid'), 'pool.error': lambda ex, a, k: SNone()},
+        requires={'fresh': 'g.wc_exits == 0 and g.wc_setup == 0'},
+        modifies=['g.wc_outcome', 'g.wc_code', 'g.wc_exits', 'g.wc_exit_code', 'g.wc_exit_exc', 'g.wc_setup'],
+        ensures={'never_returns': 'False'},
+        raises={'ProcessExit': {
+            'ends_in_one_exit_with_the_status_the_loop_named':
+                'g.wc_exits == 1 and g.wc_setup == 3 and '
+                'implies(g.wc_outcome == 0 or g.wc_outcome == 1, g.wc_exit_code == g.wc_code and not g.wc_exit_exc) and '
+                'implies(g.wc_outcome == 2, g.wc_exit_code is None and g.wc_exit_exc) and '
+                'implies(g.wc_outcome == 3, g.wc_exit_code is None and not g.wc_exit_exc)'}},
     )
 
 
@@ -318,7 +375,7 @@ def build(w, variant='main'):
         raises={'OSError': {'only_other_than_no_such_process': 'exc.errno != 3'}},
     )
     return [W.workloop_contract(PROP), cleanup, do_exit, term_job, on_death, H.set_terminated_contract(PROP),
-            terminate_pool_contract(w)]
+            terminate_pool_contract(w), worker_call_contract(w)]
 
 
 MANIFEST_ENTRY = {
@@ -338,9 +395,13 @@ MANIFEST_ENTRY = {
             'are closed.  The supervision tick (variant reap: the contract of C04/C07) updates the worker list, the cache and the '
             'registries in place -- they stay the objects the finalizer was given when the pool was made.  Worker.after_fork '
             '(variant fork) clears the exit flag a child may have inherited set before it installs the termination handlers '
-            '(once, with the worker\'s protection level), so that the first termination signal is never taken for a second one.',
+            '(once, with the worker\'s protection level), so that the first termination signal is never taken for a second one.  '
+            'Worker.__call__ wraps sys.exit before the loop runs, sets the child up (three steps) and always ends in exactly '
+            'one _do_exit: with the status the loop returned or the termination handler named through sys.exit, with the '
+            'exception (and no status) if the loop failed, with neither for any other BaseException.',
     'note': 'Bounded-time return of terminate() and "no thread running afterwards" are liveness and out of reach; '
             'of _terminate_pool the order and targets of the calls are proved, with the three overridable hooks of the class '
-            '(_help_stuff_finish, _set_result_sentinel, _stop_task_handler) as assumed contracts; Worker.__call__ is not under '
-            'contract; signal delivery is assumed.',
+            '(_help_stuff_finish, _set_result_sentinel, _stop_task_handler) as assumed contracts; signal delivery is assumed.  '
+            'Observation (outside the property): the receive closures raise SystemExit(EX_FAILURE) directly, not through the '
+            'wrapped sys.exit, so Worker.__call__ hands _do_exit no status and a child whose pipe broke exits with status 0.',
 }
